@@ -84,7 +84,7 @@ def _enum(D):
     ctx = core.Ctx(PID, D, sim)
     workers = 1 + D.dec('cfg', 'eworkers', 2)
     pat = PATTERNS[D.dec('work', 'pat', len(PATTERNS))]
-    w = W.World(D, sim, name='c06')
+    w = W.World(D, sim, name='c06', int_params=True)
     alg = W.dummy_algorithm(w, workers=workers)
     ind = Individual(W.gen_vector(w, D, 'work', ('v', 0)))
     w.pattern[ind.id] = list(pat)
@@ -128,7 +128,7 @@ def _batch(D):
     sim = W.begin_run(D)
     ctx = core.Ctx(PID, D, sim)
     workers = 1 + D.dec('cfg', 'workers', 4)
-    w = W.World(D, sim, name='c06')
+    w = W.World(D, sim, name='c06', int_params=True)
     alg = W.dummy_algorithm(w, workers=workers)
     nd = 2 + D.dec('work', 'nd', 7)
     batch = []
@@ -203,7 +203,7 @@ def _judge(ctx, w, batch, raised, workers, site):
             if k > 0:
                 prev = calls[k - 1]
                 if tuple(c.vector) == tuple(prev.vector):
-                    if any('precision' in p for p in w.params) and c.draws - prev.draws >= w.n:
+                    if any('precision' in p or 'parameter_type' in p for p in w.params) and c.draws - prev.draws >= w.n:
                         ctx.probe('coarse_precision_resample')
                     else:
                         ctx.violation('not_resampled', site, 'design %d attempt %d retried the failed vector %r unchanged'
@@ -366,7 +366,7 @@ def _run(D):
             if bad:
                 ctx.violation('resample_out_of_box', site, 'design id %d attempt %d: %s' % (ind.id, k, bad))
             if tuple(c.vector) == tuple(prev.vector):
-                if any('precision' in p for p in w.params) and c.draws - prev.draws >= w.n:
+                if any('precision' in p or 'parameter_type' in p for p in w.params) and c.draws - prev.draws >= w.n:
                     ctx.probe('coarse_precision_resample')
                 else:
                     ctx.violation('not_resampled', site, 'design id %d attempt %d retried the failed vector unchanged' % (ind.id, k))
